@@ -16,6 +16,7 @@ type propFunc func(r *Run, verifDir string)
 var props = map[string]propFunc{
 	"C01": runC01,
 	"C02": runC02,
+	"C03": runC03,
 	"C05": runC05,
 	"C06": runC06,
 	"C07": runC07,
